@@ -128,3 +128,172 @@ class Importers(Obligation):
             rec['viol']={'kind':'panic_importer_'+g['which'],'known_key':None,'scenario':scn,'predicted':'panic','what':('PublicKey::from_pem_spki' if g['which']=='pem' else 'PrivateKey::from_pkcs8')+' panics on input that is not a key: '+str(out[1])}; return rec
         if oc.startswith('err') and 'err_returned' not in self.seen: self.seen.add('err_returned'); rec['wit'].append('err_returned')
         return rec
+
+# ------------------------------------------------------------------------------------------------
+# adversarial documents through the crate's decoders (hand-written and derive-generated visitors)
+from mirsym import models_de as md
+from mirsym.models import clone_val
+from mirsym.models_json import jnull,jbool,jnum,jstr,jarr,jobj
+from .signed import FIXTURE_ED25519_PUB, ed25519_keyid
+from .wire import CHANNELS, json_py
+
+def _kid(i=0): return pool_keyid(i)
+def _edkey():
+    pub=bytes(FIXTURE_ED25519_PUB)
+    return {'keyid':ed25519_keyid(pub),'keyid_hash_algorithms':['sha256','sha512'],'keytype':'ed25519','keyval':{'public':pub.hex()},'scheme':'ed25519'}
+def _link(): return {'_type':'link','name':'s0','materials':{'a':{'sha256':'ab'}},'products':{},'environment':{'K':'V'},'byproducts':{'return-value':0,'stdout':'o','stderr':'e','x':'y'},'command':['x']}
+def _layout():
+    k=_edkey()
+    return {'_type':'layout','steps':[{'_type':'step','threshold':1,'name':'s0','expected_materials':[['MATCH','*','IN','d','WITH','PRODUCTS','IN','e','FROM','t']],'expected_products':[['ALLOW','x']],'pubkeys':[k['keyid']],'expected_command':['make']}],
+            'inspect':[{'_type':'inspection','name':'i0','expected_materials':[],'expected_products':[['DISALLOW','*']],'run':['sh','-c']}],'keys':{k['keyid']:k},'expires':'2100-01-01T00:00:00Z','readme':'r'}
+def _slsa1(): return {'builder':{'id':'b'},'recipe':{'type':'t','definedInMaterial':1},'metadata':{'buildInvocationId':'id','buildStartedOn':'2023-11-14T22:13:20Z','completeness':{'arguments':True}},'materials':[{'uri':'git+x','digest':{'sha1':'ab'}}]}
+def _slsa2(): return {'builder':{'id':'b'},'buildType':'t','invocation':{'configSource':{'uri':'u','entryPoint':'e'}},'metadata':{'buildStartedOn':'2023-11-14T23:13:20+01:00'},'materials':[{'uri':'git+x','digest':{'sha1':'ab'}}]}
+def _linkv02(): return {'name':'p','materials':{'m':{'sha256':'ab'}},'env':{'K':'V'},'command':['c'],'byproducts':{'return-value':0,'stdout':'o','stderr':'e'}}
+def _stmt(ptype,pred): return {'_type':'https://in-toto.io/Statement/v0.1','subject':{'p':{'sha256':'ab'}},'predicateType':ptype,'predicate':pred}
+ADV_DOCS={
+ 'rule':('ArtifactRule',lambda: ['MATCH','*','IN','d','WITH','PRODUCTS','IN','e','FROM','t']),
+ 'rule_short':('ArtifactRule',lambda: ['CREATE','a']),
+ 'step':('Step',lambda: _layout()['steps'][0]),
+ 'inspection':('Inspection',lambda: _layout()['inspect'][0]),
+ 'pubkey':('PublicKey',_edkey),
+ 'signature':('Signature',lambda: {'keyid':_kid(0),'sig':'0102'}),
+ 'byproducts':('ByProducts',lambda: _link()['byproducts']),
+ 'link':('LinkMetadata',_link),
+ 'layout':('LayoutMetadata',_layout),
+ 'metablock_link':('Metablock',lambda: {'signatures':[{'keyid':_kid(0),'sig':'0102'}],'signed':_link()}),
+ 'metablock_layout':('Metablock',lambda: {'signatures':[],'signed':_layout()}),
+ 'predicate_slsa1':('PredicateWrapper',_slsa1),
+ 'predicate_slsa2':('PredicateWrapper',_slsa2),
+ 'predicate_link':('PredicateWrapper',_linkv02),
+ 'statement_link':('StatementWrapper',lambda: _stmt('https://in-toto.io/Link/v0.2',_linkv02())),
+ 'statement_slsa1':('StatementWrapper',lambda: _stmt('https://slsa.dev/provenance/v0.1',_slsa1())),
+ 'statement_naive':('StatementWrapper',_link),
+}
+def py_to_value(x):
+    if x is None: return jnull()
+    if isinstance(x,bool): return jbool(Bool(x))
+    if isinstance(x,int): return jnum('PosInt',Int(64,False,x)) if x>=0 else jnum('NegInt',Int(64,True,x))
+    if isinstance(x,str): return jstr(mk_string(x))
+    if isinstance(x,list): return jarr([py_to_value(y) for y in x])
+    if isinstance(x,dict): return jobj(sorted([(k,py_to_value(v)) for k,v in x.items()],key=lambda kv: kv[0].encode()))
+    raise Unsupported('py_to_value')
+def count_nodes(x):
+    if isinstance(x,list): return 1+sum(count_nodes(y) for y in x)
+    if isinstance(x,dict): return 1+sum(count_nodes(v) for v in x.values())
+    return 1
+def replace_node(x,idx,fn,path=()):
+    """pre-order replacement of node idx in a python JSON document; returns (new doc, remaining idx or None when done)"""
+    if idx==0: return fn(x,path),None
+    idx-=1
+    if isinstance(x,list):
+        out=[]
+        for i,y in enumerate(x):
+            if idx is None: out.append(y); continue
+            n,idx=replace_node(y,idx,fn,path+(i,)); out.append(n)
+        return out,idx
+    if isinstance(x,dict):
+        out={}
+        for k in sorted(x):
+            if idx is None: out[k]=x[k]; continue
+            n,idx=replace_node(x[k],idx,fn,path+(k,)); out[k]=n
+        return out,idx
+    return x,idx
+class SymLeaf:
+    """placeholder for a symbolic node inserted into a python document"""
+    def __init__(self,v): self.v=v
+def to_value(x):
+    if isinstance(x,SymLeaf): return x.v
+    if isinstance(x,list): return jarr([to_value(y) for y in x])
+    if isinstance(x,dict): return jobj(sorted([(k,to_value(v)) for k,v in x.items()],key=lambda kv: kv[0].encode()))
+    return py_to_value(x)
+DATE_KEYS=('expires','buildStartedOn','buildFinishedOn')
+DATE_SAMPLES=['','x','2100-01-01','2100-13-01T00:00:00Z','2100-01-01T00:00:00','2100-01-01T00:00:00+25:00','2100-01-01T23:59:60Z','2100-01-01t00:00:00z','+10000-01-01T00:00:00Z','2100-01-01T00:00:00.123456789123Z','2100-01-01 00:00:00Z','2100-02-30T00:00:00Z','0000-01-01T00:00:00-23:59']
+KEYWORDS=['MATCH','CREATE','IN','WITH','FROM','MATERIALS','PRODUCTS','']
+class DecodeAdversarial(Obligation):
+    """every single-node mutation of a valid document of every wire type, decoded on every channel: value or error, never a panic"""
+    name='C14.decode_adversarial'
+    hash_order='fixed'
+    def __init__(self,what='rule',seed=0,known=(),rate=40,nbytes=2,**kw):
+        self.what=what; self.seed=seed; self.rate=rate; self.nbytes=nbytes
+        self.name='C14.decode_'+what
+        self.ty,self.mkdoc=ADV_DOCS[what]
+        self.bounds={'type':self.ty,'base_document':'one valid document of the type with every optional member present (harness/C14.py ADV_DOCS)',
+                     'mutations':'exactly one node (any node, incl. the root) replaced by: null, a free boolean, a free u64, a free negative i64, a float, a free ASCII string of 0..%d bytes, a non-ASCII sample, a keyword-like string (date members: %d concrete malformed / extreme RFC 3339 samples instead of free bytes), the original string with one byte / one 2-byte character freed at the start, middle or end, [], ["x"], {}, {"x":null}; for an object also: one member removed, one unknown member added; for an array also: one element removed, one string appended'%(nbytes,len(DATE_SAMPLES)),
+                     'channels':CHANNELS,'obligation':'each channel returns Ok or Err (no panic); channel agreement is C17'}
+        self.witnesses=['accepted','rejected']; self.seen=set()
+    def setup(self,eng,tier): self.eng=eng; self.b=B(eng)
+    def entry(self,eng):
+        def go(run,args):
+            outs=[]
+            for ch in CHANNELS:
+                try: md.de_type(eng,run,self.ty,clone_val(args[0]),ch); outs.append('ok')
+                except md.DeFail: outs.append('err')
+            return outs
+        return go
+    def mutate(self,run,node,path):
+        kinds=['null','bool','u64','i64','float','str','nonascii','kw','arr0','arr1','obj0','obj1']
+        if isinstance(node,str) and len(node)>=1: kinds+=['byte_first','byte_mid','byte_last','char2_first','char2_mid']
+        if path and path[-1] in DATE_KEYS:
+            # chrono's RFC 3339 parser is a dependency (modelled for concrete text only): concrete samples instead of free bytes
+            kinds=[k for k in kinds if k!='str' and not k.startswith('byte_') and not k.startswith('char2_')]+['date_%d'%i for i in range(len(DATE_SAMPLES))]
+        if isinstance(node,dict): kinds+=['del_%s'%k for k in sorted(node)]+['add_member']
+        if isinstance(node,list): kinds+=['del_%d'%i for i in range(len(node))]+['append']
+        k=kinds[run.pick(len(kinds),'mut')]
+        self.mut=k
+        if k=='null': return None
+        if k=='bool': return SymLeaf(jbool(Bool(z3.Bool('mb'))))
+        if k=='u64': return SymLeaf(jnum('PosInt',Int(64,False,z3.BitVec('mu',64))))
+        if k=='i64':
+            x=z3.BitVec('mi',64); run.add(x<0); return SymLeaf(jnum('NegInt',Int(64,True,x)))
+        if k=='float': return SymLeaf(jnum('Float',Opaque('f64')))
+        if k=='str':
+            n=run.pick(self.nbytes+1,'mlen'); bs=[z3.BitVec('ms_%d'%i,8) for i in range(n)]
+            for x in bs: run.add(z3.ULT(x,0x80))
+            return SymLeaf(jstr(StringO(bs)))
+        if k.startswith('date_'): return DATE_SAMPLES[int(k[5:])]
+        if k=='nonascii': return 'é\U00010000'
+        if k=='kw': return KEYWORDS[run.pick(len(KEYWORDS),'kw')]
+        if k=='arr0': return []
+        if k=='arr1': return ['x']
+        if k=='obj0': return {}
+        if k=='obj1': return {'x':None}
+        if k.startswith('byte_') or k.startswith('char2_'):
+            raw=list(node.encode()); w=2 if k.startswith('char2') else 1
+            pos={'first':0,'mid':len(raw)//2,'last':len(raw)-1}[k.split('_')[1]]
+            if k.startswith('char2'):
+                # a free 2-byte character in place of one byte: the string grows by one byte, later offsets shift
+                c0=z3.BitVec('mc0',8); c1=z3.BitVec('mc1',8); run.add(z3.UGE(c0,0xc2),z3.ULE(c0,0xdf),z3.UGE(c1,0x80),z3.ULE(c1,0xbf))
+                return SymLeaf(jstr(StringO(raw[:pos]+[c0,c1]+raw[pos+1:])))
+            c=z3.BitVec('mc',8); run.add(z3.ULT(c,0x80))
+            return SymLeaf(jstr(StringO(raw[:pos]+[c]+raw[pos+1:])))
+        if k.startswith('del_') and isinstance(node,dict):
+            return {kk:vv for kk,vv in node.items() if kk!=k[4:]}
+        if k.startswith('del_'):
+            i=int(k[4:]); return node[:i]+node[i+1:]
+        if k=='add_member': return dict(node,zz=1)
+        if k=='append': return node+['x']
+        raise Unsupported(k)
+    def mk_args(self,run):
+        doc=self.mkdoc()
+        n=count_nodes(doc)
+        idx=run.pick(n,'node')
+        info={}
+        def fn(node,path): info['path']=path; return self.mutate(run,node,path)
+        new,_=replace_node(doc,idx,fn)
+        v=to_value(new)
+        return [v],{'v':v,'path':info.get('path'),'mut':self.mut}
+    def check(self,run,out,g):
+        rec={'outcome':'ok','viol':None,'wit':[],'sample':None,'obl':1}
+        scn=lambda m: {'kind':'wire','type':self.ty,'value':json_py(g['v'],m)}
+        if out[0]!='ret':
+            r,m=run.check_sat(z3.BoolVal(True))
+            rec['outcome']='panic'
+            rec['viol']={'kind':'panic_decode_'+self.ty,'known_key':None,'scenario':scn(m),'predicted':'panic','what':'decoding a %s document panics (node %s, mutation %s): %s'%(self.ty,'/'.join(map(str,g['path'] or ())),g['mut'],str(out[1])[:200])}
+            return rec
+        kinds=out[1]; rec['outcome']='/'.join(kinds)
+        w='accepted' if kinds[0]=='ok' else 'rejected'
+        if w not in self.seen: self.seen.add(w); rec['wit'].append(w)
+        if is_sample(run,self.seed,self.rate):
+            r,m=run.check_sat(z3.BoolVal(True))
+            if r==z3.sat: rec['sample']={'scenario':scn(m),'expect':'/'.join(kinds)}
+        return rec
